@@ -16,14 +16,15 @@ def is_teardown(f):
     return f["q"].endswith("core::ops::Drop>::drop")
 
 
-def walk(cx, cfg, only=None):
+def walk(cx, cfg, only=None, noeq=False):
     """yield (root fn, path, walker) for every path of every root"""
     F = cx.facts[cfg]
     P = prims(F)
     for f in api.roots(F):
         if only is not None and not only(f):
             continue
-        for p in cx.paths(cfg, f["path"]):
+        ps = cx.paths(cfg, f["path"], models=cx.models_inconsistent_eq(cfg), tag="noeq") if noeq else cx.paths(cfg, f["path"])
+        for p in ps:
             yield f, p, nt.NT(F, P, p, f["q"], is_teardown(f)).run()
 
 
